@@ -35,7 +35,7 @@ CHECKS = {
           "source, for the C05 families, the shipped .S files and xcmp -S of tests/x.",
   "note": "Pure trace validation (states/transitions are nominal). The final 'N bytes' line is not judged (the property does not mention it)."},
  "C01": {"level": "model_checking", "design_ref": "DESIGN.md 2.4, 5 (C01), Appendix C",
-  "technique": "XLang.tla (X definition as a small-step machine) executed by TLC on each generated program and, through XSyntax/XFold/XText, on source text; compiled binaries' observable behaviour validated against it; XFrames and XCodeGenMC model checking (the specified code generator run on a label-level Hex machine computes XLang's result), XCodeGenV binding of the generator to xcmp --insts / --insts-lowered",
+  "technique": "XLang.tla (X definition as a small-step machine) executed by TLC on each generated program and, through XSyntax/XFold/XText, on source text; compiled binaries' observable behaviour validated against it; XFrames, XCodeGenMC and XCompileMC model checking (the specified code generator's lists on a label-level Hex machine, and the bytes the specified assembler makes of them on HexISA itself, compute XLang's result), XCodeGenV binding of the generator to xcmp --insts / --insts-lowered",
   "text": "The oracle is a specification that is total over the property's domain: XLang decides definedness and the behaviour (writes per "
           "channel, input consumed, exit value); xcmp+hexsim must reproduce it for the operator x leaf-kind x context enumeration, structural "
           "templates, seeded random programs, source texts (repository programs and token-level variations, parsed and translated inside the "
